@@ -1,5 +1,5 @@
 From Coq Require Import Extraction ExtrOcamlBasic.
-From CV Require Import Base.Num C06.RestraintModel C18.ValueModel C06.RestraintGen C06.TIEstimator.
+From CV Require Import Base.Num C06.RestraintModel C18.ValueModel C06.RestraintGen C06.TIEstimator C06.RestraintTSF.
 Extraction Language OCaml.
 Extraction "model.ml" mkNumOps nhalf mkVar mkCfg mkSt mkOut mkM rstep restore run init_m mstep
   harm_potential harm_force walls_potential walls_force walls_dist walls_init lin_potential lin_force
@@ -7,4 +7,4 @@ Extraction "model.ml" mkNumOps nhalf mkVar mkCfg mkSt mkOut mkM rstep restore ru
   hist_grid hist_p hist_diff hist_energy hist_forces
   harm_potential_d2 v3_dist2 uv_dist2 q_dist2 v3_interp uv_interp
   mkG mkGS grun gmstep ginit_m gstep grestore gplace uv_constrain q_constrain
-  mkTI mkIn ti_run ti_mstep ti_init_m rediff.
+  mkTI mkIn ti_run ti_mstep ti_init_m rediff run_tsf mstep_tsf.
